@@ -643,7 +643,7 @@ def model_requests(case, obs):
     # every registration of a head on a reference match (`match $ref.Finished()`, `$e.action.Finished()` ...): the name is
     # re-computed by Models/RefName.lean::nameOf from the referent observed at that moment
     # (and, wave 6, on a flow / action given by NAME: `nameOfSpec`, cases 2 and 3)
-    items = [{k: r.get(k) for k in ("var", "members", "obj", "name", "type", "known") if k in r} for st in obs["steps"] for r in st.get("refregs", [])]
+    items = [{k: r.get(k) for k in ("var", "members", "obj", "name", "type", "known", "change_args") if k in r} for st in obs["steps"] for r in st.get("refregs", [])]
     if items:
         reqs.append({"m": "C09.refname", "items": items})
     return reqs
@@ -783,6 +783,10 @@ def compare_refnames(case, obs, res):
                 return f"{where}: the interpreter raised {r['raise']} but the model says {m}"
         elif m.get("ok") != r.get("bucket"):
             return f"{where}: filed under {r.get('bucket')!r} but the model names {m}"
+        # the dispatcher's side (`get_event_from_element`, Models/RefName.lean::dispatchNameOfSpec): same name, or both cannot name it
+        d = m.get("dispatch") or {}
+        if "dispatch" in r and (d.get("ok") if r["dispatch"] != "!raise" else ("!raise" if "err" in d else d.get("ok"))) != r["dispatch"]:
+            return f"{where}: the dispatcher (get_event_from_element) names {r['dispatch']!r} but the model says {d}"
     return None
 
 
